@@ -17,7 +17,8 @@ import binding
 import core
 
 _WS = re.compile(r"[ \t]+")
-KIND = {"lic": "lic", "con": "con", "cop": "cop", "snip": "cop", "word": "cop", "wordc": "cop"}
+KIND = {"lic": "lic", "con": "con", "cop": "cop", "snip": "cop", "word": "cop", "wordc": "cop", "sym": "cop", "wordsym": "cop"}
+SIGN = "SIGNSIGN"        # the specification's stand-in for the copyright sign
 
 
 def observe_api(text: str, kind: str) -> tuple:
@@ -65,17 +66,19 @@ def run_case(case: dict) -> dict:
         lines += ["\u6587\u5b57\u5217\u3092\u57cb\u3081\u308b\u884c " * 3 + "\u00e9\u00a9\n"] * 30    # < 4096 bytes: still inside the window
     lines.append(g["line"] + "\n")
     lines.append("some code follows\n")
+    if case.get("tail_filler"):           # the tag is at the top of a file that is longer than the 4 KiB window
+        lines += [filler] * 60
     if case["snippet"] and not case.get("marker_at"):
         lines.append("# SPDX-SnippetBegin\n")
     if case["poison"]:
         lines.insert(0, "SPDX-License-Identifier: MIT AND AND\n")
-    text = "".join(lines).replace("\n", case["eol"])
+    text = "".join(lines).replace("\n", case["eol"]).replace(SIGN, "\u00a9")
     if case.get("bom"):
         text = "\ufeff" + text          # a byte order mark belongs to no line
     if case["via"] == "api":
         obs, err = observe_api(text.replace("\r\n", "\n").replace("\r", "\n"), kind)
         ev["err"] = err
-        ev["obs"] = [] if err else obs
+        ev["obs"] = [] if err else [o.replace("\u00a9", SIGN) for o in obs]
         return ev
     data = text.encode("utf-8")
     if case.get("nonascii"):
@@ -107,7 +110,8 @@ def run_case(case: dict) -> dict:
         elif kind == "lic":
             ev["obs"] = sorted(x["value"] for x in fr[0]["spdx_expressions"])
         elif kind == "cop":
-            ev["obs"] = sorted(x["value"].replace("\u00e4", "a") if case.get("nonascii") else x["value"] for x in fr[0]["copyrights"])
+            ev["obs"] = sorted((x["value"].replace("\u00e4", "a") if case.get("nonascii") else x["value"]).replace("\u00a9", SIGN)
+                               for x in fr[0]["copyrights"])
         else:
             ev["obs"] = []
         return ev
@@ -142,7 +146,7 @@ def run(ctx: core.Ctx) -> int:
             place = "beyond" if j % 2 else "head"
             cases.append({"tid": len(cases) + 1, "g": g, "via": "lint", "place": place, "snippet": bool(j % 4 >= 2),
                           "poison": j % 7 == 0, "eol": ["\n", "\r\n", "\r"][j % 3], "wide": j % 3 == 1,
-                          "bom": j % 4 == 2 and place == "head" and j % 7 != 0})
+                          "bom": j % 4 == 2 and place == "head" and j % 7 != 0, "tail_filler": place == "head" and j % 4 == 0})
     # copyright values with non-ASCII letters in a file that is not valid UTF-8 throughout
     for gi, g in enumerate([g for g in gens if KIND[g["c"]["tag"]] == "cop"][:: 6 if q else 1]):
         cases.append({"tid": len(cases) + 1, "g": g, "via": "lint", "place": "head", "snippet": bool(gi % 2), "poison": False,
